@@ -231,7 +231,7 @@ def rule_r3(chk, m):
     fys = m.func("RegularPeriodMixin.from_year_segment")
     chk.saw(m, "_serial_from_ysf"); chk.saw(m, "RegularPeriodMixin.to_year_segment"); chk.saw(m, "RegularPeriodMixin.from_year_segment")
     fv = _freq_values(m)
-    years = (-3, -1, 0, 1, 7, 1999, 2020, 2024, 9999)
+    years = (-3, -1, 0, 1, 7, 1999, 2020, 2024, 9999) if chk.tier != "thorough" else tuple(range(-400, 10000))
 
     def serial_of(y, s, f):
         return fin.run_function(ysf, dict(zip(params(ysf), (y, s, f))))
